@@ -182,6 +182,19 @@ pub fn build_node(
     with_callback: bool,
     predicate: u8,
 ) -> NodeBuild {
+    build_node_seeded(id, cluster_id, kv_grace, fd, with_callback, predicate, false)
+}
+
+/// Same, optionally with a (never answering) literal seed in the configuration.
+pub fn build_node_seeded(
+    id: &ChitchatId,
+    cluster_id: &str,
+    kv_grace: Duration,
+    fd: &FdCfg,
+    with_callback: bool,
+    predicate: u8,
+    seeded: bool,
+) -> NodeBuild {
     let catchup_calls = Arc::new(AtomicUsize::new(0));
     let calls = catchup_calls.clone();
     let config = ChitchatConfig {
@@ -189,7 +202,7 @@ pub fn build_node(
         cluster_id: cluster_id.to_string(),
         gossip_interval: Duration::from_secs(1),
         listen_addr: id.gossip_advertise_addr,
-        seed_nodes: Vec::new(),
+        seed_nodes: if seeded { vec!["127.0.0.1:1".to_string()] } else { Vec::new() },
         failure_detector_config: fd.to_real(),
         marked_for_deletion_grace_period: kv_grace,
         catchup_callback: if with_callback {
@@ -201,7 +214,7 @@ pub fn build_node(
         },
         extra_liveness_predicate: make_predicate(predicate),
     };
-    let (seed_tx, seed_rx) = tokio::sync::watch::channel(HashSet::new());
+    let (seed_tx, seed_rx) = tokio::sync::watch::channel(if seeded { HashSet::from([SocketAddr::from(([127, 0, 0, 1], 1))]) } else { HashSet::new() });
     let chitchat = Chitchat::with_chitchat_id_and_seeds(config, seed_rx, Vec::new());
     NodeBuild {
         chitchat,
